@@ -37,6 +37,8 @@ var c03Tables = []c03Table{
 	{ops: []string{"+", "---", "-"}, unary: []string{}},                                   // the repository's own greedy-walk example
 	{ops: []string{"+", "-"}, unary: []string{"-"}},                                       // prefix = HIGHEST binary
 	{ops: []string{"a+", "+"}, unary: nil},                                                // odd but legal spellings are excluded: letters lex as identifiers (kept for malformed inputs)
+	{ops: []string{"+", "-", "*", "/"}, unary: []string{"-", "+", "!"}},                   // 9: TWO prefix operators that are also binary (lowest and second level)
+	{ops: []string{"∪", "≤", "·", "+"}, unary: []string{"¬", "·"}},                        // 10: operators spelled with non-ASCII runes (skeleton jobs only)
 }
 
 func c03Jobs(tier string, seed int64) []string {
@@ -65,6 +67,17 @@ func c03Jobs(tier string, seed int64) []string {
 			add("skel:" + strconv.Itoa(ti) + ":4")
 		}
 	}
+	// table 9: free inputs and skeletons; table 10: skeletons only (its bytes are no alphabet for free inputs)
+	for l := 1; l <= 2; l++ {
+		add("free:9:" + strconv.Itoa(l))
+	}
+	if tier == "thorough" {
+		add("free:9:3")
+		add("skel:9:4")
+		add("skel:10:4")
+	}
+	add("skel:9:3")
+	add("skel:10:3")
 	for _, e := range []string{"a+b*(1-a)", "-a*b+f(a,b)[1].x", "(a,b)->a*b+1", "[a,b+1,-a].m(b)(1)"} {
 		add("mal:4:" + e)
 	}
